@@ -338,7 +338,8 @@ func (c *connection) onActiveRespondEvent(record map[uint16]*ActiveMessage, msg 
 			slog.Warn("parse fail",
 				slog.String("terminal data", fmt.Sprintf("%x", msg.ExtensionFields.TerminalData)),
 				slog.Any("err", err))
-			return true
+			// 解析失败的不可能是某个请求的应答 按普通的终端消息处理(需要回复的照常回复)
+			return false
 		}
 		for k := range record {
 			if tmp.HasRespondFunc(k) {
